@@ -78,6 +78,8 @@ def mutate(rng, b):
 def nesting(rng, big):
     op = rng.choice(OPENERS + CHAINS + CONST_CHAINS)
     n = rng.choice([1, 5, 100, 400, 511, 512, 513, 600, 2000] + ([20000, 100000] if big else []))
+    if op in CONST_CHAINS:
+        n = min(n, 4000)                                                # folding constants costs quadratic time (see CONST_CHAINS)
     close = {"(": ")", "[": "]", "{": "}", "fun(){": "}", "if(true){": "}", "[1,": "]", "f(": ")", "1+(": ")", "x[": "]", "\"${": "}\"", "[x:": "]", "def f(){": "}", "try{": "}",
              "class C{def m(){": "}}", "while(true){": "}", "for(;;){": "}", "[[": "]]", "((": "))", "x?": ":0", "x?y:": ""}.get(op, "")
     mid = rng.choice(["1", "", "x", "\"s\""])
